@@ -383,6 +383,13 @@ func TestVerifC09Faults(t *testing.T) {
 				in := c09fault{Name: fmt.Sprintf("%02x, pause %d%% of the data timeout, %02x", rep[0], 40, rep[1]), Want: rep == [2]byte{5, 0},
 					Steps: []c09step{{Op: "read", N: 3}, {Op: "send", Bytes: []byte{rep[0]}}, {Op: "sleep", Ms: dataMs * 4 / 10}, {Op: "send", Bytes: []byte{rep[1]}}}}
 				cases = append(cases, tcase{F: in, DialMs: 200, DataMs: dataMs, SlowMs: dataMs * 4 / 10})
+				if r == 0 && dataMs == 300 {
+					// the connect timeout is about connecting: a reply that completes long after it (but with every
+					// read inside the data timeout) is still a reply
+					slow := c09fault{Name: fmt.Sprintf("%02x %02x after 3x the connect timeout (well inside the data timeout)", rep[0], rep[1]), Want: rep == [2]byte{5, 0},
+						Steps: []c09step{{Op: "read", N: 3}, {Op: "sleep", Ms: 300}, {Op: "send", Bytes: []byte{rep[0]}}, {Op: "sleep", Ms: 300}, {Op: "send", Bytes: []byte{rep[1]}}}}
+					cases = append(cases, tcase{F: slow, DialMs: 100, DataMs: 2500, SlowMs: 600})
+				}
 				out := c09fault{Name: fmt.Sprintf("%02x, pause 3x the data timeout, %02x", rep[0], rep[1]),
 					Steps: []c09step{{Op: "read", N: 3}, {Op: "send", Bytes: []byte{rep[0]}}, {Op: "sleep", Ms: dataMs * 3}, {Op: "send", Bytes: []byte{rep[1]}}}}
 				cases = append(cases, tcase{F: out, DialMs: 200, DataMs: dataMs, SlowMs: dataMs * 3})
@@ -476,7 +483,16 @@ func TestVerifC09Faults(t *testing.T) {
 				// an upper bound for the probe (it must get its answer inside its own timeouts): re-probe a fresh
 				// server with 4x and 16x the timeouts before judging; a wrong decision rule fails at every scale
 				for _, scale := range []int{4, 16} {
-					srv2 := newC09Server(func(string) []c09step { return c.F.Steps })
+					// the server's own pauses scale with the timeouts: what is judged is the shape of the exchange
+					// relative to the timeouts, not the absolute speed of this machine
+					scaled := make([]c09step, len(c.F.Steps))
+					copy(scaled, c.F.Steps)
+					for k := range scaled {
+						if scaled[k].Op == "sleep" {
+							scaled[k].Ms *= scale
+						}
+					}
+					srv2 := newC09Server(func(string) []c09step { return scaled })
 					sc2 := socks5.NewScanner(socks5.WithDialTimeout(time.Duration(c.DialMs*scale)*time.Millisecond), socks5.WithDataTimeout(time.Duration(c.DataMs*scale)*time.Millisecond))
 					r2, _ := sc2.Scan(context.Background(), c09req(fmt.Sprintf("127.1.%d.%d", 1+i%200, 1+i%250), srv2.port))
 					srv2.close()
